@@ -36,7 +36,7 @@ def ncf2wind(ncffile, outpath, tflag='TFLAG'):
         t = np.array(t // 100, ndmin=1).astype('>f')
         d = np.array(d, ndmin=1).astype('>i')
         d = (d % (d // 100000 * 100000)).astype('>i')
-        lstag = ncffile.LSTAGGER
+        lstag = np.array(ncffile.LSTAGGER, ndmin=1).astype('>i')
         buf = np.array([12], dtype='>i').tobytes()
         outfile.write(buf + t.tobytes() + d.tobytes() +
                       lstag.tobytes() + buf)
